@@ -151,7 +151,7 @@ func c11Leaf(r *rand.Rand, d ref.V, elemScope bool) ref.Stmt {
 		return ref.Stmt{Kind: gen.Pick(r, ref.CmpKinds), Sel: sel, Val: ref.Float(f)}
 	case ref.KString:
 		if r.IntN(2) == 0 {
-			return ref.Stmt{Kind: "like", Sel: sel, Pat: gen.GlobFor(r, cur.S)}
+			return ref.Stmt{Kind: "like", Sel: sel, Pat: c11Glob(r, cur.S)}
 		}
 		return ref.Stmt{Kind: "==", Sel: sel, Val: ref.Str(cur.S + gen.Pick(r, []string{"", "", "x"}))}
 	default:
@@ -658,4 +658,27 @@ func reorderedMapLiteral(p ref.Policy, d ref.V) bool {
 		}
 	}
 	return false
+}
+
+// c11Glob draws a pattern for a string: related to it, or over the string's own small
+// alphabet (self-overlapping literals after a wildcard are where backtracking matters).
+func c11Glob(r *rand.Rand, s string) string {
+	if r.IntN(2) == 0 || len(s) == 0 {
+		return gen.GlobFor(r, s)
+	}
+	var b []byte
+	for i := 0; i < 1+r.IntN(6); i++ {
+		switch r.IntN(4) {
+		case 0:
+			b = append(b, '*')
+		default:
+			b = append(b, gen.EscapeGlob(string(s[r.IntN(len(s))]))...)
+		}
+	}
+	if r.IntN(2) == 0 {
+		// a suffix of the string behind a wildcard
+		k := r.IntN(len(s))
+		return "*" + gen.EscapeGlob(s[k:])
+	}
+	return string(b)
 }
